@@ -100,6 +100,8 @@ def showEv : Ev → String
   | .done id ok => s!"done:{id}:{b01 ok}"
   | .deliver p => s!"deliver:{hexOf p}"
   | .pull id n => s!"pull:{id}:{n}"
+  | .rx t m => s!"rx@{t}:{m.id}:{b01 m.ext}:{hexOf m.data}"
+  | .rxNone t => s!"rxn@{t}"
 
 /-- oldest-first event list with adjacent pulls of one request merged -/
 def mergePulls : List Ev → List Ev
@@ -123,6 +125,8 @@ structure Drv where
   outbox : Array (List CanMsg) := #[]
   addrs  : Array (Option Half) := #[]
   now    : Nat := 0
+  emitted : Array Nat := #[]                      -- frames emitted so far per layer
+  faults  : Array (Option (Bool × Nat)) := #[]   -- armed link fault per layer: (dup?, index)
 
 /-- run an operation on layer i: sync clock, run, collect new events, route tx frames to the outbox -/
 def onLayer (d : Drv) (i : Nat) (f : State → State × String) : Drv × String :=
@@ -133,12 +137,19 @@ def onLayer (d : Drv) (i : Nat) (f : State → State × String) : Drv × String 
     let (s, res) := f s0
     let evs := s.log.reverse
     let txs := evs.filterMap fun e => match e with | .tx _ m => some m | _ => none
-    let out := (d.outbox[i]?.getD []) ++ txs
+    let n0 := d.emitted[i]?.getD 0
+    let routed : List CanMsg := match (d.faults[i]?.getD none) with
+      | none => txs
+      | some (dup, k) =>
+        (txs.zipIdx.map fun (m, j) =>
+          if n0 + j = k then (if dup then [m, m] else []) else [m]).flatten
+    let out := (d.outbox[i]?.getD []) ++ routed
     let line := match s.exc with
       | some e => s!"{showEvents evs}|exc {e.name}|{showStatus s}"
       | none => s!"{showEvents evs}|{res}|{showStatus s}"
     let s := { s with log := [], exc := none }
-    ({ d with layers := d.layers.set! i s, outbox := d.outbox.set! i out, now := s.now }, line)
+    ({ d with layers := d.layers.set! i s, outbox := d.outbox.set! i out, now := s.now,
+              emitted := d.emitted.set! i (n0 + txs.length) }, line)
 
 def parseTat (s : String) : Option Tat :=
   if s = "0" then some .physical else if s = "1" then some .functional else none
@@ -163,7 +174,9 @@ def step (d : Drv) (line : String) : Drv × String :=
         let s := State.init (parseCfg kv) a
         let layers := if i < d.layers.size then d.layers.set! i s else d.layers.push s
         let outbox := if i < d.outbox.size then d.outbox.set! i [] else d.outbox.push []
-        ({ d with layers := layers, outbox := outbox }, "ok")
+        let emitted := if i < d.emitted.size then d.emitted.set! i 0 else d.emitted.push 0
+        let faults := if i < d.faults.size then d.faults.set! i none else d.faults.push none
+        ({ d with layers := layers, outbox := outbox, emitted := emitted, faults := faults }, "ok")
   | ["send", i, id, size, hex, tat, instr] =>
     match i.toNat?, id.toNat?, size.toInt?, parseHex hex with
     | some i, some id, some size, some src =>
@@ -217,6 +230,23 @@ def step (d : Drv) (line : String) : Drv × String :=
         let s := mv.foldl (fun s m => s.pushFrame 0 m) s
         ({ d with layers := d.layers.set! j s }, s!"moved {mv.length}")
     | _, _, _ => (d, "bad-op")
+  | ["deliver", i, j, n, k] =>
+    match i.toNat?, j.toNat?, n.toNat?, k.toNat? with
+    | some i, some j, some n, some k =>
+      let ob := d.outbox[i]?.getD []
+      let mv := ob.take n
+      let d := { d with outbox := d.outbox.set! i (ob.drop n) }
+      match d.layers[j]?, d.layers[k]? with
+      | some s, some s2 =>
+        let s := mv.foldl (fun s m => s.pushFrame 0 m) s
+        let s2 := mv.foldl (fun s m => s.pushFrame 0 m) s2
+        ({ d with layers := (d.layers.set! j s).set! k s2 }, s!"moved {mv.length}")
+      | _, _ => (d, "bad-layer")
+    | _, _, _, _ => (d, "bad-op")
+  | ["fault", i, kind, n] =>
+    match i.toNat?, n.toNat? with
+    | some i, some n => ({ d with faults := d.faults.set! i (some (kind = "dup", n)) }, "ok")
+    | _, _ => (d, "bad-op")
   | ["drop", i, k] =>
     match i.toNat?, k.toNat? with
     | some i, some k => ({ d with outbox := d.outbox.set! i (removeAt (d.outbox[i]?.getD []) k) }, "ok")
@@ -250,6 +280,19 @@ def step (d : Drv) (line : String) : Drv × String :=
       | some h => (d, b01 (h.isForMe { id := id, ext := parseBool ext, data := data }))
       | none => (d, "bad-addr")
     | _, _, _ => (d, "bad-op")
+  | "params" :: rest =>
+    let kv := parseKV rest
+    let g := fun k d => parsePyVal (kv.get k d)
+    let pa : ParamArgs := {
+      stmin := g "stmin" "i0", blocksize := g "blocksize" "i8", overrideStmin := g "override_receiver_stmin" "N",
+      tFc := g "rx_flowcontrol_timeout" "i1000", tCf := g "rx_consecutive_frame_timeout" "i1000",
+      txPadding := g "tx_padding" "N", wftmax := g "wftmax" "i0", txDl := g "tx_data_length" "i8",
+      txMinLen := g "tx_data_min_length" "N", maxFrameSize := g "max_frame_size" "i4095",
+      canFd := g "can_fd" "b0", brs := g "bitrate_switch" "b0", defaultTat := g "default_target_address_type" "i0",
+      rlBitrate := g "rate_limit_max_bitrate" "i100000000", rlWindow := g "rate_limit_window_size" "f3602879701896397/18014398509481984",
+      rlEnable := g "rate_limit_enable" "b0", listen := g "listen_mode" "b0", blocking := g "blocking_send" "b0",
+      prod := g "prod" "i20000000", ovrScaledFinite := parseBool (kv.get "ovrfin" "1") }
+    (d, if validateParams pa then "ok" else "exc ValueError")
   | ["decode", start, hex] =>
     match start.toNat?, parseHex hex with
     | some st, some data =>
